@@ -323,6 +323,16 @@ func evalDecoded(r *ev.Run, P props, st *enumStats, c *dcase) any {
 			}
 		}
 	}
+	if c.ver == 3 && P.scoreLevel >= 0 && P.scoreLevel <= c.level {
+		// the same score through the report view of the object's own level
+		if txt, ok := reportScoreText(obj, P.scoreLevel); ok {
+			ws, _ := want(P.scoreLevel)
+			wantTxt := strconv.FormatFloat(float64(ws[0])/10, 'f', -1, 64)
+			if txt != wantTxt {
+				r.Violate(ev.Violation{Kind: "score-in-report", Case: with(c.m(), "level", spec.LevelNames[P.scoreLevel]), Observed: txt, Expected: wantTxt + "  (decimal rendering of the specification's score, in the report built from the decoded object)"})
+			}
+		}
+	}
 	if P.neutral {
 		checkNeutral(r, c, scores)
 	}
